@@ -41,12 +41,82 @@ pub fn cmd_fmt(cmd: &Value) -> Value {
 				texts.push(Value::String(t.clone()));
 				cur = t;
 			}
-			Err(_) => {
-				return json!({"k":"declined","pass":texts.len(),"texts":texts});
+			Err(e) => {
+				// render the diagnostic the way cmds/jrsonnet-fmt does
+				let snippet = e.build();
+				let ansi = hi_doc::source_to_ansi(&snippet);
+				return json!({"k":"declined","pass":texts.len(),"texts":texts,"diag_len":ansi.len()});
 			}
 		}
 	}
 	json!({"k":"formatted","texts":texts})
+}
+
+fn comments_of(src: &str) -> Vec<Value> {
+	jrsonnet_lexer::Lexer::new(src)
+		.filter(|l| format!("{:?}", l.kind).contains("COMMENT"))
+		.map(|l| json!({"k": format!("{:?}", l.kind), "t": src.get(l.range.0 as usize..l.range.1 as usize).unwrap_or("<bad range>")}))
+		.collect()
+}
+
+/// Syntactic context of every comment of `src` in the formatter's syntax tree: kind of the parent node and of
+/// the nearest non-trivia siblings (in source order, same order as the lexer's comment tokens).
+fn comment_contexts(src: &str) -> Vec<Value> {
+	use jrsonnet_rowan_parser::AstNode;
+	let (file, _) = jrsonnet_rowan_parser::parse(src);
+	let is_trivia = |k: &str| k == "WHITESPACE" || k.contains("COMMENT");
+	let mut out = Vec::new();
+	for el in file.syntax().descendants_with_tokens() {
+		let Some(tok) = el.into_token() else { continue };
+		let kind = format!("{:?}", tok.kind());
+		if !kind.contains("COMMENT") {
+			continue;
+		}
+		let parent = tok.parent().map_or_else(|| "none".to_owned(), |p| format!("{:?}", p.kind()));
+		let mut prev = tok.prev_sibling_or_token();
+		while let Some(p) = &prev {
+			if is_trivia(&format!("{:?}", p.kind())) {
+				prev = p.prev_sibling_or_token();
+			} else {
+				break;
+			}
+		}
+		let mut next = tok.next_sibling_or_token();
+		while let Some(n) = &next {
+			if is_trivia(&format!("{:?}", n.kind())) {
+				next = n.next_sibling_or_token();
+			} else {
+				break;
+			}
+		}
+		out.push(json!({
+			"parent": parent,
+			"prev": prev.map_or_else(|| "none".to_owned(), |p| format!("{:?}", p.kind())),
+			"next": next.map_or_else(|| "none".to_owned(), |n| format!("{:?}", n.kind())),
+		}));
+	}
+	out
+}
+
+/// `fmt` plus what C19 compares: evaluator-parser ASTs and comment tokens of input and first-pass output.
+pub fn cmd_fmtx(cmd: &Value) -> Value {
+	let src = cmd["src"].as_str().unwrap_or("");
+	let mut out = cmd_fmt(cmd);
+	out["ast_in"] = crate::ast::parse_ir(src, false);
+	out["comments_in"] = Value::Array(comments_of(src));
+	out["contexts_in"] = Value::Array(comment_contexts(src));
+	let first = out["texts"].get(0).and_then(Value::as_str).map(str::to_owned);
+	if let Some(t) = first {
+		out["ast_out"] = crate::ast::parse_ir(&t, false);
+		out["peg_out_ok"] = json!(crate::ast::parse_peg(&t, false)["k"] == "ok");
+		out["comments_out"] = Value::Array(comments_of(&t));
+		out["contexts_out"] = Value::Array(comment_contexts(&t));
+	}
+	let second = out["texts"].get(1).and_then(Value::as_str).map(str::to_owned);
+	if let Some(t) = second {
+		out["comments_out2"] = Value::Array(comments_of(&t));
+	}
+	out
 }
 
 // ---------------------------------------------------------------- positions (C17)
